@@ -238,6 +238,23 @@ where
     }
 }
 
+/// Completes its wait group when dropped, so that a waiter is released even if the
+/// message carrying it is discarded instead of being handled.
+pub(crate) struct Signal(WaitGroup);
+
+impl Signal {
+    #[inline]
+    fn new(wg: &WaitGroup) -> Self {
+        Self(wg.add(1))
+    }
+}
+
+impl Drop for Signal {
+    fn drop(&mut self) {
+        self.0.done();
+    }
+}
+
 pub(crate) enum Item<V> {
     New {
         key: u64,
@@ -255,7 +272,7 @@ pub(crate) enum Item<V> {
         key: u64,
         conflict: u64,
     },
-    Wait(WaitGroup),
+    Wait(Signal),
 }
 
 impl<V> Item<V> {
@@ -423,6 +440,10 @@ where
             return Ok(());
         }
 
+        self.clear_in()
+    }
+
+    fn clear_in(&self) -> Result<(), CacheError> {
         // stop the process item thread.
         self.clear_tx.send(()).map_err(|e| {
             CacheError::SendError(format!("fail to send clear signal to working thread {}", e))
@@ -489,11 +510,16 @@ where
         }
 
         let wg = WaitGroup::new();
-        let wait_item = Item::Wait(wg.add(1));
         self.insert_buf_tx
-            .try_send(wait_item)
-            .map(|_| wg.wait())
-            .map_err(|e| CacheError::SendError(format!("cache set buf sender: {}", e)))
+            .try_send(Item::Wait(Signal::new(&wg)))
+            .map_err(|e| CacheError::SendError(format!("cache set buf sender: {}", e)))?;
+        // A close() that started after the marker was queued drains the buffer before the
+        // processing thread exits; one that started before may never look at it.
+        if self.is_closed.load(Ordering::SeqCst) {
+            return Ok(());
+        }
+        wg.wait();
+        Ok(())
     }
 
     /// remove an entry from Cache by key.
@@ -533,17 +559,16 @@ where
     /// `close` stops all threads and closes all channels.
     #[inline]
     pub fn close(&self) -> Result<(), CacheError> {
-        if self.is_closed.load(Ordering::SeqCst) {
+        if self.is_closed.swap(true, Ordering::SeqCst) {
             return Ok(());
         }
 
-        self.clear()?;
+        self.clear_in()?;
         // Block until processItems thread is returned
         self.stop_tx
             .send(())
             .map_err(|e| CacheError::SendError(format!("{}", e)))?;
         self.policy.close()?;
-        self.is_closed.store(true, Ordering::SeqCst);
         Ok(())
     }
 
@@ -651,7 +676,11 @@ where
                         tracing::error!("fail to handle cleanup event: {}", e);
                     }
                 },
-                recv(self.stop_rx) -> _ => return Ok(()),
+                recv(self.stop_rx) -> _ => {
+                    // release whoever is still waiting on a marker in the buffer
+                    let _ = CacheCleaner::new(&mut self).clean();
+                    return Ok(());
+                },
             }
         })
     }
